@@ -21,6 +21,11 @@ for f in sorted(glob.glob(os.path.join(V, 'checks', 'C*.json'))):
         'level_note': c.get('level_note', ''),
         'technique': c.get('technique', 'Coq 8.16 theorems over a Gallina mirror model + differential correspondence check (real Go code vs model under vm_compute)'),
     })
+# merge findings.d/*.json into known_findings.json (development-time only; checks never write it)
+kf = []
+for f in sorted(glob.glob(os.path.join(V, 'findings.d', '*.json'))):
+    kf += json.load(open(f))
+json.dump(kf, open(os.path.join(V, 'known_findings.json'), 'w'), indent=1)
 hooks = json.load(open(os.path.join(V, 'MANIFEST.hooks'))) if os.path.exists(os.path.join(V, 'MANIFEST.hooks')) else {}
 m = {
     'version': 1,
